@@ -86,7 +86,7 @@ def _run(tier, seed, replay=None):
             variants["RemoteUnit %s=TRUE" % cname] = x.violated
     wit = [] if tier == "quick" else vlib.witnesses("WorkUnit", "WorkUnit_crash.cfg", ["W_NoRecovery", "W_NoSucceeded"], wd)
 
-    rec = vlib.build_receptor()
+    rec = vlib.private_copy(vlib.build_receptor(), wd)   # daemons re-execute this path; other checks rebuild .work/bin
     vd = vlib.build_harness("vd")
     runs = os.path.join(wd, "runs")
     args = ["c04", "-bin", rec, "-dir", runs, "-seed", str(seed), "-par", "8"]
@@ -112,6 +112,7 @@ def _run(tier, seed, replay=None):
         if len(res["inconclusive"]) > max(2, res["evaluations"] // 10):
             raise vlib.Inconclusive("; ".join(res["inconclusive"][:6]))
         v.notes.append("inconclusive experiments: " + "; ".join(res["inconclusive"][:6]))
+    v.notes.extend(res.get("notes") or [])   # e.g. scenario set-ups that had to be repeated, with the daemon's own last words
     ex = res.get("extra", {})
     # ---- (B2) the file-step events of every crash run, validated by TLC (crash-aware: a "crash" line per dead process
     # releases its lock and drops its unwritten update, the file system keeps its content)
@@ -145,6 +146,7 @@ def _run(tier, seed, replay=None):
         "tlc": {"spec": "WorkUnit.tla", "cfg": cfg, "generated": r.generated, "distinct": r.distinct, "depth": r.depth, "wall_s": round(r.wall, 1)},
         "variants_violated": variants, "witnesses": wit, "counters": res["counters"],
         "traces_validated_against_impl": ex.get("status_files", 0) if tv.get("status_file_steps", {}).get("accepted") else 0, "crash_trace_validation": tv,
+        "notes": v.notes,
     }
     return v.finish("fault_enumeration", cov, assumptions=[
         "crash = SIGKILL of one process (daemon or runner; both together in two double-kill experiments) at a hook-defined point between two file-system operations; the file system itself is not "
